@@ -237,10 +237,8 @@ def parse_assumptions(out):
         if line.startswith("Closed under the global context") or not line.strip():
             cur = False
             continue
-        if cur:
-            m = re.match(r"^(\S+)\s*:", line)
-            if m and not line.startswith(" "):
-                ax.add(m.group(1))
+        if cur and not line.startswith(" "):
+            ax.add(line.split()[0].rstrip(":"))
     return ax
 
 
